@@ -13,7 +13,7 @@ import (
 
 // C11 — marshaling is deterministic and depends only on content.
 
-var c11BaseNames = []string{"soft resource + included", "wrapped resource + included", "Resources(mixed)", "SoftCollection", "WrapperCollection", "errors", "identifiers + meta + links", "weird names", "wide type, long unsorted selection"}
+var c11BaseNames = []string{"soft resource + included", "wrapped resource + included", "Resources(mixed)", "SoftCollection", "WrapperCollection", "errors", "identifiers + meta + links", "weird names", "wide type, long unsorted selection", "Resources(mixed), no selection entry for a member's type"}
 
 // a type with more fields than any "short list" fast path, selected in reverse order
 var c11Wide = func() TypeD {
@@ -68,7 +68,7 @@ func c11Base(i int, p c11Params) *DocCase {
 	case 0, 1:
 		doc.Data = mkT(softT, "t1", 1)
 		frag = []string{"t", "t1"}
-	case 2:
+	case 2, 9:
 		col := &j.Resources{}
 		col.Add(mkT(true, "t2", 1))
 		col.Add(docRes(docU, true, "u5", 0))
@@ -119,11 +119,20 @@ func c11Base(i int, p c11Params) *DocCase {
 	}
 	fields := map[string][]string{"t": append([]string{}, p.selT...), "u": {"back", "b"}, docQ.Name: {"s"},
 		"w": {"r2", "r1", "f9", "f8", "f7", "f6", "f5", "f4", "f3", "f2", "f1", "f0"}}
+	if i == 9 {
+		delete(fields, "u")
+		doc.Included = doc.Included[:0]
+		for _, k := range p.inclPerm {
+			if incl[k].GetType().Name != "u" {
+				doc.Included = append(doc.Included, incl[k])
+			}
+		}
+	}
 	c.Fields = fields
 	c.Doc = doc
 	c.URL = &j.URL{Fragments: frag, ResType: frag[0], IsCol: len(frag) == 1,
 		Params: &j.Params{Fields: fields, RelData: map[string][]string{}, SortingRules: []string{"s", "-n", "id"}, Include: [][]j.Rel{},
-			Page: map[string]any{"size": 10, "number": 2}, FilterLabel: "lbl"}}
+			Page: map[string]any{"size": 10, "number": 2, "cursor": "c<1>", "limit": 5, "after": "x", "Zed": true}, FilterLabel: "lbl"}}
 	c.Desc = c11BaseNames[i]
 	return c
 }
@@ -322,7 +331,7 @@ func init() {
 	Register(&Prop{
 		Post: c11Conformance,
 		ID: "C11",
-		Rule: "Engine A over 9 base (document, URL) pairs (soft / wrapped single resource with 3 included of mixed implementations, Resources / SoftCollection / WrapperCollection, errors with links/source/meta maps, identifiers + nested meta + links map, names needing escapes, a 12-field type with a long selection given in reverse order): (i) map schedules: the iteration order of EVERY instrumented map-range loop instance met while marshaling (all n! orders for n <= 4 keys, reversal/rotations/adjacent swaps above) is an environment choice; all executions with <= 1 (thorough 2) deviating loop instances, plus the uniform reversed and rotated schedules; (ii) all orders of a 3-id to-many list, of a 4-name field selection, of the relationship-data list and of a 3-element included list with distinct ids; (iii) three marshals in a row on the same objects. Oracle: byte-identical output everywhere; everything later readable from the resources and the URL (modulo the three exempted orders) unchanged. Non-trivial = execution with at least one deviating loop / a non-default permutation",
+		Rule: "Engine A over 10 base (document, URL) pairs, every URL with size, number and four custom page[...] keys (soft / wrapped single resource with 3 included of mixed implementations, Resources / SoftCollection / WrapperCollection, errors with links/source/meta maps, identifiers + nested meta + links map, names needing escapes, a 12-field type with a long selection given in reverse order, a mixed collection one of whose member types has no selection entry): (i) map schedules: the iteration order of EVERY instrumented map-range loop instance met while marshaling (all n! orders for n <= 4 keys, reversal/rotations/adjacent swaps above) is an environment choice; all executions with <= 1 (thorough 2) deviating loop instances, plus the uniform reversed and rotated schedules; (ii) all orders of a 3-id to-many list, of a 4-name field selection, of the relationship-data list and of a 3-element included list with distinct ids; (iii) three marshals in a row on the same objects. Oracle: byte-identical output everywhere; everything later readable from the resources and the URL (modulo the three exempted orders) unchanged. Non-trivial = execution with at least one deviating loop / a non-default permutation",
 		Assumptions: []string{"the repository suite passing under the instrumented build (sorted, reversed, rotated schedules) binds the rewritten loops to the original ones"},
 		Harnesses: []Harness{{Name: "C11/marshal", Body: c11Body, Dev: func() int {
 			if Thorough() {
